@@ -176,6 +176,9 @@ pub struct ExecPlan {
     pub consumer_gone_after: Option<usize>,
     /// fault: a separate thread calls shutdown() after yielding this many times, while the dispatchers run
     pub shutdown_after_yields: Option<usize>,
+    /// fault: the traffic pauses before dispatcher 0's frame `.0` for `.1` simulated ns: the dispatcher waits for
+    /// the queues to drain, the simulated clock moves, and every worker's pending receive times out
+    pub idle_gap: Option<(usize, u64)>,
 }
 
 /// The body of one scheduled execution.
@@ -190,11 +193,31 @@ pub fn exec(plan: &ExecPlan) -> Result<ExecOut, String> {
         let p = pool.clone();
         let mut doomed = if di == 0 && plan.consumer_gone_after.is_some() { recv.take() } else { None };
         let gone_at = plan.consumer_gone_after.unwrap_or(usize::MAX);
+        let gap = if di == 0 { plan.idle_gap } else { None };
+        let workers = plan.cfg.workers;
         hs.push(thread::spawn(move || {
             let mut v = vec![];
             for (i, f) in frames.into_iter().enumerate() {
                 if i == gone_at {
                     drop(doomed.take());
+                }
+                if let Some((at, ns)) = gap {
+                    if i == at {
+                        for _ in 0..4000 {
+                            if p.stats().workers.iter().all(|w| w.0 == 0) {
+                                break;
+                            }
+                            thread::sleep(std::time::Duration::from_millis(0));
+                        }
+                        for _ in 0..8 * workers {
+                            thread::sleep(std::time::Duration::from_millis(0));
+                        }
+                        huginn_net_verif_rt::clock::advance_ns(ns);
+                        verif_chan::force_timeouts(2 * workers as u32);
+                        for _ in 0..16 * workers {
+                            thread::sleep(std::time::Duration::from_millis(0));
+                        }
+                    }
                 }
                 v.push(p.dispatch(f));
             }
